@@ -1,3 +1,191 @@
-(* Proofs/VersioningFacts.v *)
-From Coq Require Import ZArith List Bool Lia.
-From V Require Import Base.UString Model.Versioning Spec.VersioningSpec.
+(* Proofs/VersioningFacts.v -- dictionaries as association lists (lookup,
+   update, dropping None), and the arithmetic of _fudge_modified.             *)
+From Coq Require Import String ZArith NArith List Bool Lia.
+From V Require Import Base.UString Base.Json Model.Timestamp Model.Versioning Spec.VersioningSpec.
+Import ListNotations.
+Open Scope list_scope. Open Scope Z_scope.
+
+(* ---- strings ---- *)
+Lemma ustr_eqb_refl : forall s, ustr_eqb s s = true.
+Proof. induction s as [|c r IH]; cbn; [reflexivity|]. now rewrite N.eqb_refl, IH. Qed.
+
+Lemma ustr_eqb_eq : forall a b, ustr_eqb a b = true <-> a = b.
+Proof.
+  induction a as [|x a IH]; intros [|y b]; cbn; split; intros H; try reflexivity; try discriminate.
+  - apply andb_true_iff in H as [H1 H2]. apply N.eqb_eq in H1. apply IH in H2. now subst.
+  - inversion H; subst. now rewrite N.eqb_refl, ustr_eqb_refl.
+Qed.
+
+Lemma ustr_eqb_neq : forall a b, ustr_eqb a b = false <-> a <> b.
+Proof.
+  intros a b. split; intros H.
+  - intros E. apply ustr_eqb_eq in E. congruence.
+  - destruct (ustr_eqb a b) eqn:E; [|reflexivity]. apply ustr_eqb_eq in E. contradiction.
+Qed.
+
+Lemma ustr_eqb_sym : forall a b, ustr_eqb a b = ustr_eqb b a.
+Proof.
+  intros a b. destruct (ustr_eqb a b) eqn:E.
+  - apply ustr_eqb_eq in E. subst. now rewrite ustr_eqb_refl.
+  - symmetry. apply ustr_eqb_neq. apply ustr_eqb_neq in E. congruence.
+Qed.
+
+Lemma mem_In : forall k l, mem k l = true <-> In k l.
+Proof.
+  induction l as [|x r IH]; cbn; [split; [discriminate|tauto]|].
+  rewrite orb_true_iff, IH, ustr_eqb_eq. split; intros [H|H]; auto.
+Qed.
+
+(* ---- lookup ---- *)
+Definition keys (d : pdict) : list ustring := map fst d.
+
+Lemma plookup_not_in : forall k d, ~ In k (keys d) -> plookup k d = None.
+Proof.
+  induction d as [|[k' v] r IH]; cbn; intros H; [reflexivity|].
+  destruct (ustr_eqb k k') eqn:E; [apply ustr_eqb_eq in E; subst; tauto|]. apply IH. tauto.
+Qed.
+
+Lemma plookup_in : forall k d v, plookup k d = Some v -> In k (keys d).
+Proof.
+  induction d as [|[k' v'] r IH]; cbn; intros v H; [discriminate|].
+  destruct (ustr_eqb k k') eqn:E; [apply ustr_eqb_eq in E; now left|]. right. now apply IH with v.
+Qed.
+
+Lemma has_key_in : forall k d, has_key k d = true <-> In k (keys d).
+Proof.
+  intros k d. unfold has_key. split; intros H.
+  - destruct (plookup k d) eqn:E; [now apply plookup_in with p|discriminate].
+  - destruct (plookup k d) eqn:E; [reflexivity|]. exfalso. revert H E. induction d as [|[k' v] r IH]; cbn; [tauto|].
+    intros [H|H]; destruct (ustr_eqb k k') eqn:E; try discriminate; auto.
+    subst. now rewrite ustr_eqb_refl in E.
+Qed.
+
+Lemma plookup_app : forall k a b, plookup k (a ++ b) = match plookup k a with Some v => Some v | None => plookup k b end.
+Proof.
+  induction a as [|[k' v] r IH]; intros b; cbn; [reflexivity|]. destruct (ustr_eqb k k'); [reflexivity|apply IH].
+Qed.
+
+(* ---- set_key / update ---- *)
+Lemma plookup_set_key_same : forall k v d, plookup k (set_key k v d) = Some v.
+Proof.
+  induction d as [|[k' v'] r IH]; cbn; [now rewrite ustr_eqb_refl|].
+  destruct (ustr_eqb k k') eqn:E; cbn; rewrite E; [reflexivity|exact IH].
+Qed.
+
+Lemma plookup_set_key_other : forall k k' v d, ustr_eqb k k' = false -> plookup k (set_key k' v d) = plookup k d.
+Proof.
+  intros k k' v d N. induction d as [|[k0 v0] r IH]; cbn; [now rewrite N|].
+  destruct (ustr_eqb k' k0) eqn:E; cbn.
+  - apply ustr_eqb_eq in E. subst k0. now rewrite N.
+  - destruct (ustr_eqb k k0); [reflexivity|exact IH].
+Qed.
+
+Lemma keys_set_key_in : forall x k v d, In x (keys (set_key k v d)) -> x = k \/ In x (keys d).
+Proof.
+  induction d as [|[k0 v0] r IH]; cbn; [intros [H|[]]; left; congruence|].
+  destruct (ustr_eqb k k0) eqn:E; cbn; [tauto|]. intros [H|H]; [auto|]. destruct (IH H); auto.
+Qed.
+
+Lemma nodup_set_key : forall k v d, NoDup (keys d) -> NoDup (keys (set_key k v d)).
+Proof.
+  induction d as [|[k0 v0] r IH]; cbn; intros H; [constructor; [tauto|constructor]|].
+  inversion H; subst. destruct (ustr_eqb k k0) eqn:E; cbn; [constructor; assumption|].
+  constructor; [|now apply IH]. intros I. apply keys_set_key_in in I as [I|I]; [|contradiction].
+  subst. now rewrite ustr_eqb_refl in E.
+Qed.
+
+Lemma update_cons : forall d kv kw, update d (kv :: kw) = update (set_key (fst kv) (snd kv) d) kw.
+Proof. reflexivity. Qed.
+
+Lemma update_app : forall d a b, update d (a ++ b) = update (update d a) b.
+Proof. intros. unfold update. apply fold_left_app. Qed.
+
+Lemma nodup_update : forall kw d, NoDup (keys d) -> NoDup (keys (update d kw)).
+Proof. induction kw as [|kv r IH]; intros d H; [exact H|]. rewrite update_cons. apply IH. now apply nodup_set_key. Qed.
+
+(* the last binding of a name in the keyword list wins; Python keyword arguments are distinct,
+   so under NoDup that is the only one *)
+Lemma plookup_update_nodup : forall k kw d, NoDup (keys kw) ->
+  plookup k (update d kw) = match plookup k kw with Some v => Some v | None => plookup k d end.
+Proof.
+  induction kw as [|[k0 v0] r IH]; intros d H; [reflexivity|].
+  rewrite update_cons. inversion H; subst. rewrite IH by assumption. cbn [fst snd plookup].
+  destruct (ustr_eqb k k0) eqn:E.
+  - apply ustr_eqb_eq in E. subst k0. rewrite (plookup_not_in k r) by assumption. apply plookup_set_key_same.
+  - destruct (plookup k r); [reflexivity|]. now apply plookup_set_key_other.
+Qed.
+
+(* ---- dropping None ---- *)
+Lemma keys_drop_none_in : forall x d, In x (keys (drop_none d)) -> In x (keys d).
+Proof.
+  induction d as [|[k v] r IH]; cbn; [tauto|]. destruct (negb (is_none v)); cbn; intros H; [destruct H; auto|auto].
+Qed.
+
+Lemma nodup_drop_none : forall d, NoDup (keys d) -> NoDup (keys (drop_none d)).
+Proof.
+  induction d as [|[k v] r IH]; cbn; intros H; [constructor|]. inversion H; subst.
+  destruct (negb (is_none v)); cbn; [|now apply IH]. constructor; [|now apply IH].
+  intros I. apply keys_drop_none_in in I. contradiction.
+Qed.
+
+Lemma drop_none_cons : forall kv r,
+  drop_none (kv :: r) = if negb (is_none (snd kv)) then kv :: drop_none r else drop_none r.
+Proof. reflexivity. Qed.
+
+Lemma plookup_drop_none : forall k d, NoDup (keys d) -> plookup k (drop_none d) = pget k d.
+Proof.
+  unfold pget. induction d as [|[k0 v0] r IH]; intros H; [reflexivity|]. inversion H; subst.
+  rewrite drop_none_cons. cbn [snd plookup].
+  destruct (ustr_eqb k k0) eqn:E.
+  - apply ustr_eqb_eq in E. subst k0. destruct (is_none v0) eqn:N; cbn [negb].
+    + rewrite IH by assumption. now rewrite (plookup_not_in k r).
+    + cbn [plookup]. now rewrite ustr_eqb_refl.
+  - destruct (is_none v0); cbn [negb plookup]; [|rewrite E]; now apply IH.
+Qed.
+
+Lemma drop_none_no_none : forall k d v, plookup k (drop_none d) = Some v -> is_none v = false.
+Proof.
+  induction d as [|[k0 v0] r IH]; intros v H; [discriminate|]. rewrite drop_none_cons in H. cbn [snd] in H.
+  destruct (is_none v0) eqn:N; cbn [negb] in H; [now apply IH|]. cbn [plookup] in H.
+  destruct (ustr_eqb k k0); [inversion H; subst; exact N|now apply IH].
+Qed.
+
+Lemma pget_some : forall k d v, pget k d = Some v -> plookup k d = Some v /\ is_none v = false.
+Proof.
+  unfold pget. intros k d v H. destruct (plookup k d) as [x|]; [|discriminate].
+  destruct (is_none x) eqn:N; [discriminate|]. inversion H; subst. auto.
+Qed.
+
+(* ---- the arithmetic of _fudge_modified (DESIGN Appendix A.1) ---- *)
+Definition fudge20 (o n : Z) : Z := if n - o <? 1000 then o + 1000 else n.
+Definition fudge21 (o n : Z) : Z := if n <=? o then o + 1 else n.
+
+Ltac Zify.zify_post_hook ::= Z.to_euclidean_division_equations.
+
+(* every clock reading: earlier, equal, less than a millisecond later, later *)
+Lemma fudge20_strict : forall old now, ser20 (fudge20 (ser20 old) now) > ser20 old.
+Proof. intros old now. unfold fudge20, ser20. destruct (now - (old - old mod 1000) <? 1000) eqn:E; lia. Qed.
+
+Lemma fudge21_strict : forall old now, ser21 (fudge21 (ser21 old) now) > ser21 old.
+Proof. intros old now. unfold fudge21, ser21. destruct (now <=? old) eqn:E; lia. Qed.
+
+(* the rule of one version applied at the precision of the other is not strict: both
+   branches are needed as they are *)
+Lemma fudge21_rule_at_ms_precision_not_strict : exists old now, ~ ser20 (fudge21 (ser20 old) now) > ser20 old.
+Proof. exists 1500, 1999. vm_compute. intros H. discriminate. Qed.
+
+Lemma stored_trunc_milli_exact : forall t, stored_trunc PMilli CExact t = t - t mod 1000.
+Proof. intros t. cbn [stored_trunc]. lia. Qed.
+
+Lemma stored_trunc_milli_idem : forall c t, stored_trunc PMilli c (stored_trunc PMilli c t) = stored_trunc PMilli c t.
+Proof. intros [] t; cbn [stored_trunc]; lia. Qed.
+
+(* ---- boolean comparisons of the generated tables with the frozen ones ---- *)
+Definition subset (a b : list ustring) : bool := forallb (fun k => mem k b) a.
+Definition seteq (a b : list ustring) : bool := subset a b && subset b a.
+Definition reg_agree (r1 r2 : list (bool * ustring * bool)) : bool :=
+  forallb (fun row => match row with
+                      | (b, ty, v) => match reg_lookup b ty r2 with Some v' => Bool.eqb v v' | None => false end
+                      end) r1.
+Definition sco_agree (s1 s2 : list (ustring * list ustring)) : bool :=
+  forallb (fun row => match sco_lookup (fst row) s2 with Some ps => seteq (snd row) ps | None => false end) s1.
